@@ -90,7 +90,7 @@ theorem good_reset (w : World) (o : Nat) (h : Good w) : Good (w.reset o) := by
   | some x => exact good_resetOne _ _ (good_fold_resetOne _ _ h)
 
 /-- changing only the `views` (or nothing) of an object keeps everything -/
-theorem good_setViews (w : World) (o : Nat) (x : Obj) (vs : List Nat) (hx : w.objs[o]? = some x)
+theorem good_setViews (w : World) (o : Nat) (x : Obj) (vs : Nat) (hx : w.objs[o]? = some x)
     (h : Good w) : Good (w.setObj o { x with views := vs }) := by
   obtain ⟨⟨hd, hu⟩, hi⟩ := h
   simp only [World.setObj]
@@ -104,6 +104,11 @@ theorem good_setViews (w : World) (o : Nat) (x : Obj) (vs : List Nat) (hx : w.ob
     unfold Inv World.dictOf at hi
     grind
 
+/-- the `_streams` dicts play no part in the memo invariant -/
+theorem good_vlists (w : World) (vl : List (List Nat)) (h : Good w) : Good { w with vlists := vl } := by
+  obtain ⟨⟨hd, hu⟩, hi⟩ := h
+  exact ⟨⟨hd, hu⟩, hi⟩
+
 theorem good_view (w : World) (o : Nat) (h : Good w) : Good (w.view o).1 := by
   unfold World.view
   have h1 := good_newObj w h
@@ -111,7 +116,19 @@ theorem good_view (w : World) (o : Nat) (h : Good w) : Good (w.view o).1 := by
   | none => simpa [hx] using h1
   | some x =>
     simp only [hx]
-    exact good_setViews _ _ _ _ hx h1
+    exact good_vlists _ _ h1
+
+theorem good_proxy (w : World) (o : Nat) (h : Good w) : Good (w.proxy o).1 := by
+  unfold World.proxy
+  have h1 := good_newObj w h
+  cases hx : w.newObj.1.obj? o with
+  | none => simpa [hx] using h1
+  | some x =>
+    cases hy : w.newObj.1.obj? w.newObj.2 with
+    | none => simpa [hx, hy] using h1
+    | some y =>
+      simp only [hx, hy]
+      exact good_setViews _ _ _ _ hy h1
 
 theorem good_mut (w : World) (o : Nat) (m : Mut) (h : Good w) : Good (w.mut o m) := by
   cases m with
@@ -121,7 +138,12 @@ theorem good_mut (w : World) (o : Nat) (m : Mut) (h : Good w) : Good (w.mut o m)
     unfold World.mut
     cases hx : w.obj? o with
     | none => simpa using h
-    | some x => exact good_setViews _ _ _ _ hx h
+    | some x => exact good_vlists _ _ h
+  | rebind =>
+    unfold World.mut
+    cases hx : w.obj? o with
+    | none => simpa using h
+    | some x => exact good_vlists _ _ (good_setViews _ _ _ _ hx h)
 
 /-- Writing object `o`'s key and its (unshared) dict together keeps the invariant, provided the
 new entries were all computed at the new key. -/
@@ -177,7 +199,7 @@ theorem good_readFail (w : World) (o : Nat) (k : Nat) (h : Good w) : Good (w.rea
 theorem good_step (w : World) (op : Op) (h : Good w) : Good (w.step op) := by
   cases op with
   | new => exact good_newObj w h
-  | proxy o => exact good_newObj w h
+  | proxy o => exact good_proxy w o h
   | view o => exact good_view w o h
   | mutate o m => exact good_mut w o m h
   | read o n k => exact good_read w o n k h
@@ -226,7 +248,7 @@ example :
 def proxyShared (w : World) (o : Nat) : World :=
   match w.obj? o with
   | none => w
-  | some x => { w with objs := w.objs ++ [{ key := x.key, dict := x.dict, views := [] }] }
+  | some x => { w with objs := w.objs ++ [{ key := x.key, dict := x.dict, views := x.views }] }
 
 /-- With the shared-dict proxy the property fails: read `H` on the original in state 1, create a
 proxy, read `H` through the proxy in state 2, return to state 1 and read `H` on the original — the
